@@ -9,7 +9,8 @@ LEAN_MODULES = ['Dhlldv.Props.C03']
 PROP_MODULES = ['Dhlldv.Props.C03']
 TECHNIQUE = 'Lean 4 proof over the model regenerated from the source (regime models) and over executable Specs of the graded sum and the slurry tables + bit-exact correspondence'
 PROVED = ['head = Erhg*Rsd*Cv + il and pressure = head*g*rhol for the homogeneous, heterogeneous, sliding-bed, fixed-bed (rhol*g != 0, Rsd*Cvs != 0), '
-          'Wilson-stratified and Wilson-V50 models, argument lists written out',
+          'Wilson-stratified and Wilson-V50 models, argument lists written out; Wilson stratified also at full strength for ANY bed concentration handed in '
+          '(C03_wilson_stratified_any_bed: pressure(Cvb) = head(Cvb)*g*rhol)',
           'graded sand (Spec tied by bit-exact correspondence): im = (rhox/rhol) * (sum f_i im_i)/(1-X), im_i = E(dx_i; pseudo-liquid, Cv_r)*Rsd_x*Cv_r + il_x, '
           'dx_i the geometric mean, Erhg = (im - il)/(Rsd Cv) hence im = Erhg*Rsd*Cv + il',
           'slurry tables: im[key][i] = Erhg[key][i]*Rsd*Cv + il[i], ELM[i] = il[i]*rhom (Spec)']
@@ -51,9 +52,12 @@ def correspondence(ctx):
         musf = ctx.rng.choice([0.31, 0.4, 0.415])
         d = min(d, 0.1 * Dp)
         wpts.append((max(vls, 0.5), Dp, d, eps, nu, rhol, rhos, musf, Cv))
-    compare_gen(ctx, 'wilson_stratified.stratified_head_loss', WS.stratified_head_loss, [(list(a) + [0.6], a, {}) for a in wpts])
-    compare_gen(ctx, 'wilson_stratified.stratified_pressure_loss', WS.stratified_pressure_loss, [(list(a) + [0.6], a, {}) for a in wpts])
-    compare_gen(ctx, 'wilson_stratified.Erhg', WS.Erhg, [(list(a) + [0.6], a, {}) for a in wpts])
+    # the bed concentration is an argument of the Wilson stratified functions: the default and a looser / denser bed
+    cvbs = [ctx.rng.choice([None, None, 0.55, 0.65]) for _ in wpts]
+    wargs = [(list(a) + [0.6 if c is None else c], a if c is None else a + (c,), {}) for a, c in zip(wpts, cvbs)]
+    compare_gen(ctx, 'wilson_stratified.stratified_head_loss', WS.stratified_head_loss, wargs)
+    compare_gen(ctx, 'wilson_stratified.stratified_pressure_loss', WS.stratified_pressure_loss, wargs)
+    compare_gen(ctx, 'wilson_stratified.Erhg', WS.Erhg, wargs)
     vpts = []
     for a in wpts:
         vls, Dp, d, eps, nu, rhol, rhos, musf, Cv = a
@@ -68,8 +72,12 @@ def correspondence(ctx):
     for _ in range(ctx.n(25, 600)):
         p = E.slurry_params(ctx.rng)
         s = E.make_slurry(p)
-        gsd = s.GSD
-        items = sorted(gsd.items())
+        items = sorted(s.GSD.items())
+        # "the grading as is" is a dict the caller wrote: in ascending order, coarse-to-fine, or D50 first - the model gets the sorted points
+        order = ctx.rng.choice(['ascending', 'descending', 'shuffled'])
+        its = list(items) if order == 'ascending' else list(reversed(items)) if order == 'descending' else ctx.rng.sample(items, len(items))
+        gsd = dict(its)
+        p = dict(p, grading_written=order)
         for cvt in (False, True):
             for vls in [E.pick_vls(ctx.rng) for _ in range(3)]:
                 sf, sq = ctx.rng.choice([(True, True), (True, False), (False, True), (False, False)])
@@ -153,7 +161,7 @@ def monitor(ctx, extended=False):
             dw = min(d, 0.1 * Dp)
             vw = max(vls, 0.5)
             ilw = Ho.fluid_head_loss(vw, Dp, eps, nu, rhol)
-            w = (vw, Dp, dw, eps, nu, rhol, rhos, musf, Cv)
+            w = (vw, Dp, dw, eps, nu, rhol, rhos, musf, Cv) + ctx.rng.choice([(), (), (0.55,), (0.65,)])   # the bed concentration is an argument too
             ident(ctx, 'Wilson stratified', WS.stratified_head_loss(*w), WS.Erhg(*w), ilw, rsd, Cv, WS.stratified_pressure_loss(*w), rhol, {'args': list(w)})
             d85 = min(dw * E.loguniform(ctx.rng, 1.02, 6.0), 0.25 * Dp)
             v = (vw, Dp, dw, d85, eps, nu, rhol, rhos, Cv, musf)
@@ -221,6 +229,16 @@ def monitor(ctx, extended=False):
                     want = graded_oracle(F, Ho, s.GSD, vls, s.Dp, s.epsilon, s.nu, s.rhol, s.rhos, s.Cv, cvt)
                     if not rel_close(ic[key][i], want, 1e-8):
                         ctx.violation(f'{key}[{i}]={ic[key][i]!r} differs from the fraction-weighted sum {want!r}', {'slurry': p, 'index': i}, key='graded-sum')
+                    if i == min(idx):
+                        # the function itself on a grading "used as is" that the caller wrote coarse-to-fine / in no particular order
+                        its = sorted(s.GSD.items())
+                        for order, g in (('descending', dict(reversed(its))), ('shuffled', dict(ctx.rng.sample(its, len(its))))):
+                            ctx.count('evaluations')
+                            e_ = F.Erhg_graded(g, vls, s.Dp, s.epsilon, s.nu, s.rhol, s.rhos, s.Cv, Cvt_eq_Cvs=cvt, num_fracs=None)
+                            got = e_ * s.Rsd * s.Cv + il_list[i]
+                            if not rel_close(got, want, 1e-8):
+                                ctx.violation(f'Erhg_graded on the grading as is, written {order}: gradient {got!r} differs from the fraction-weighted sum {want!r}',
+                                              {'slurry': p, 'index': i, 'Cvt_eq_Cvs': cvt, 'grading_written': order, 'grading': list(g.items())}, key='graded-sum')
             classes.add(('slurry', p['fluid'], p['D50'] > 0.015 * p['Dp']))
         except Exception as e:   # noqa
             ctx.violation(f'slurry object raised {type(e).__name__}: {e}', {'slurry': p}, key='tables')
